@@ -723,6 +723,11 @@ func (ref *Node) DoNewObject(t reflect.Type, m meta.Definition, insideList bool)
 		switch x := m.(type) {
 		case *meta.List:
 			keyMeta := x.KeyMeta()
+			if len(keyMeta) != 1 {
+				// a map holds one entry per map key: with several key leaves (or none) entries
+				// that share the first would replace each other
+				return reflect.ValueOf(make([]interface{}, 0)), nil
+			}
 			if len(keyMeta) == 1 {
 				// support some common key types, but anything too unusual should have
 				// custom implementation and would default to map[interface{}]interface{}
